@@ -269,6 +269,65 @@ def guards(node, stop=None):
     return out
 
 
+def _exit_kind(stmts):
+    last = stmts[-1]
+    if isinstance(last, ast.Raise):
+        return "raise"
+    if isinstance(last, ast.Return):
+        return "return"
+    if isinstance(last, (ast.Continue, ast.Break)):
+        return "jump"
+    return "other"
+
+
+def guards_ex(node, stop=None):
+    """Like guards() but each atom carries its origin:
+    'nest' (lexical nesting), 'exit-raise', 'exit-return', 'exit-jump', 'exit-other'."""
+    out = []
+    child = node
+    for a in ancestors(node):
+        tmp = []
+        if a is stop:
+            pass
+        elif isinstance(a, ast.If) or isinstance(a, ast.While):
+            if any(child is s for s in a.body):
+                _flatten_atom(a.test, True, tmp)
+            elif any(child is s for s in a.orelse) and isinstance(a, ast.If):
+                _flatten_atom(a.test, False, tmp)
+        elif isinstance(a, ast.IfExp):
+            if child is a.body:
+                _flatten_atom(a.test, True, tmp)
+            elif child is a.orelse:
+                _flatten_atom(a.test, False, tmp)
+        elif isinstance(a, ast.BoolOp):
+            idx = [i for i, v in enumerate(a.values) if v is child]
+            if idx:
+                for v in a.values[: idx[0]]:
+                    _flatten_atom(v, isinstance(a.op, ast.And), tmp)
+        out.extend((e, p, "nest") for e, p in tmp)
+        for field in ("body", "orelse", "finalbody"):
+            lst = getattr(a, field, None)
+            if isinstance(lst, list) and any(child is s for s in lst):
+                for s in lst:
+                    if s is child:
+                        break
+                    if isinstance(s, ast.If):
+                        tmp = []
+                        if terminates(s.body) and not terminates(s.orelse):
+                            _flatten_atom(s.test, False, tmp)
+                            kind = _exit_kind(s.body)
+                        elif s.orelse and terminates(s.orelse) and not terminates(s.body):
+                            _flatten_atom(s.test, True, tmp)
+                            kind = _exit_kind(s.orelse)
+                        else:
+                            continue
+                        out.extend((e, p, "exit-" + kind) for e, p in tmp)
+        if a is stop or (stop is None and isinstance(a, FUNC_TYPES)):
+            break
+        child = a
+    return out
+
+
 def guard_texts(node, stop=None):
     return set((U(e), p) for e, p in guards(node, stop))
 
